@@ -7,6 +7,13 @@ parent, which is sound because the analysis is flow-insensitive) the translator 
                        caller-owned object (result of a user callback / unclassified callable)
     inplace x          the object x refers to is modified in place
 
+Parameters of inlined nested functions receive `assign p [] true` (anything).  Exception: a
+parameter with a default value that no call expression of the enclosing function can override
+(the closure idiom `lambda …, func=f: func(…)`) is bound to what its default may alias; the
+condition is stated in `FuncTranslator.pinned_defaults`, its shape part is re-decided by the Lean
+kernel on the certificate rows `Gen.Effects.pins` (`GridVerif.C20.all_pins_ok`) and proved
+sufficient (`GridVerif.C20.enter_pinned`, `runC_sound`); `pinned_selftest` exercises every clause.
+
 The classification of expressions (which NumPy/SciPy/builtin calls return a new object,
 which return views, which mutate an argument) is the table below; it is part of the
 trusted base and is validated dynamically by harness/props/c20.py.  Whatever is not in a
@@ -283,7 +290,9 @@ class FuncTranslator:
         self.inline_stack = []
         self.inlining = 0
         self.varkinds = {}
-        self._callshape = None
+        self._shape_cache = {}
+        self.encl = [self.node]     # the function in whose text we are: top-level def, or inlined helper
+        self.pins = []
         fn = self.node
         names = self.all_args(fn.args)
         deco = {dotted(d) for d in fn.decorator_list}
@@ -422,7 +431,15 @@ class FuncTranslator:
         self.counter += 1
         tag = f"n{self.counter}"
         scope = {}
-        pinned = self.pinned_defaults(fn)
+        pinned, cand, sites = self.pinned_defaults(fn)
+        row = None
+        if cand:
+            # certificate for Lean (`Gen.Effects.pins`): the call shapes of the enclosing function and,
+            # per parameter with a default, its position / name and the statement emitted for it;
+            # `pinOk` re-decides the condition in the kernel
+            row = dict(encl=self.encl[-1].name, fn=getattr(fn, "name", "<lambda>"), line=fn.lineno,
+                       sites=sites, params=[])
+            self.pins.append(row)
         for p in self.all_args(fn.args):
             scope[p] = f"{tag}:p:{p}"
             if p in pinned:
@@ -431,9 +448,13 @@ class FuncTranslator:
                 ys, cb = self.alias(pinned[p])
                 self.varkinds.setdefault(scope[p], set()).add(self.kind(pinned[p]))
                 self.assign(self.var(scope[p]), ys, cb, fn.lineno)
+                row["params"].append(dict(name=p, var=self.var(scope[p]), pos=cand[p][0], ys=sorted(set(ys)),
+                                          cb=bool(cb), pinned=True))
                 continue
             self.varkinds.setdefault(scope[p], set()).add("unknown")
             self.assign(self.var(scope[p]), [], True, fn.lineno)
+            if p in cand:
+                row["params"].append(dict(name=p, var=self.var(scope[p]), pos=cand[p][0], ys=[], cb=True, pinned=False))
         if not isinstance(fn, ast.Lambda):
             for n in sorted(self.assigned_names(fn) - set(scope)):
                 scope[n] = f"{tag}:l:{n}"
@@ -450,16 +471,43 @@ class FuncTranslator:
         self.scopes.pop()
         return ret
 
-    def pinned_defaults(self, fn) -> dict:
-        """Parameters of a nested def / lambda that have a default value and that no call inside
-        the enclosing top-level function can override: -> {name: default expression}.
+    # container methods / builtins that take a function object without calling it
+    HOLDER_METHODS = {"append", "extend", "insert", "add", "update", "setdefault"}
+    PASS_THROUGH = {"list", "tuple", "dict", "set", "frozenset", "reversed", "enumerate", "zip", "iter",
+                    "next", "len", "isinstance", "callable", "id", "type", "bool", "repr", "str"}
 
-        A nested function object is reachable from outside only through what the enclosing function
-        returns; when it is itself a returned value (or the enclosing function stores it on `self`)
-        nothing is pinned.  Otherwise the only call sites are the ones in this function's text:
-        a parameter at positional index i is overridable if some call whose callee is not a dotted
-        (module / method) name passes more than i positional arguments, a `*args`, a keyword of
-        that name or a `**kwargs`."""
+    def pinned_defaults(self, fn):
+        """Parameters of a nested def / lambda `fn` that have a default value which no call can
+        override -> (pinned {name: default expression}, candidates {name: (position | None, default)},
+        call shapes [(npos, [keywords], star)] of the enclosing function).
+
+        T = the function in whose text `fn` is written (the top-level function being translated, or
+        the private module-level helper being inlined).  The syntactic condition has two parts.
+
+        (E) *`fn` is only ever called from call expressions written in T.*  Let H (the holders) be
+        the least set of names with: the name of `fn`; every name bound (assignment, `for`, `with`,
+        comprehension, walrus, default value of a nested function's parameter) to an expression
+        that mentions `fn` or a holder outside the callee position of a call; every local name `h`
+        of T with `h.append/extend/insert/add/update/setdefault(… fn or a holder …)` or
+        `h[…] = … fn or a holder …`.  (E) requires that in the whole text of T, nested functions
+        included: no `return`/`yield` value mentions `fn` or a holder (outside callee positions); no
+        assignment to an attribute, to a subscript of a parameter / non-local, or to a `global` /
+        `nonlocal` name has such a value; `fn` / a holder is not passed as an argument of any call
+        other than the container methods above on a local name and the non-calling builtins
+        `list tuple dict set frozenset reversed enumerate zip iter next len isinstance callable id type
+        bool repr str` (none of them calls its argument with arguments);
+        no method is called on `fn` / a holder other than those container methods, `get`, `pop`,
+        `copy`, `items`, `values`, `keys`, `index`, `count`; `fn` has no decorator.
+
+        (S) *no call expression of T supplies the parameter.*  The call shapes of T are collected
+        from every call whose callee is not a dotted name (by (E) a dotted callee cannot evaluate to
+        `fn`) and not a builtin / module-level name that T does not rebind: number of positional
+        arguments, keyword names, presence of `*`/`**`.  A parameter at positional index i named n is
+        overridable by a shape with `*`/`**`, with keyword n, or with more than i positional
+        arguments.  Lean re-decides (S) on the recorded shapes (`GridVerif.Effects.pinned`,
+        `GridVerif.C20.all_pins_ok`); `GridVerif.C20.enter_pinned` proves that under (S) Python's
+        argument binding leaves the parameter at its default for every call that fits a recorded
+        shape.  (E) is established here and is part of the trusted extraction."""
         import builtins
         a = fn.args
         pos = a.posonlyargs + a.args
@@ -470,60 +518,148 @@ class FuncTranslator:
             if d is not None:
                 cand[x.arg] = (None, d)
         if not cand:
-            return {}
-        top = self.node
-        if getattr(self, "_callshape", None) is None:
-            maxpos, kws, star, escaping = 0, set(), False, set()
+            return {}, {}, []
+        top = self.encl[-1]
+        if id(top) not in self._shape_cache:
             assigned = self.assigned_names(top) | set(self.all_args(top.args))
+            mod_globals = self.module_globals
+            shapes = []
             for n in ast.walk(top):
                 if isinstance(n, ast.Call) and not isinstance(n.func, ast.Attribute):
                     if isinstance(n.func, ast.Name) and n.func.id not in assigned and hasattr(builtins, n.func.id):
                         continue
-                    if isinstance(n.func, ast.Name) and n.func.id not in assigned and n.func.id in self.module_globals:
+                    if isinstance(n.func, ast.Name) and n.func.id not in assigned and n.func.id in mod_globals:
                         continue
-                    if any(isinstance(x, ast.Starred) for x in n.args):
-                        star = True
-                    if any(k.arg is None for k in n.keywords):
-                        star = True
-                    maxpos = max(maxpos, len(n.args))
-                    kws |= {k.arg for k in n.keywords if k.arg}
-                # function objects that leave the function directly
-                if isinstance(n, ast.Return) and n.value is not None:
-                    for m in ast.walk(n.value):
-                        if isinstance(m, ast.Lambda):
-                            escaping.add(id(m))
-                        if isinstance(m, ast.Name):
-                            escaping.add(m.id)
-                if isinstance(n, (ast.Assign, ast.AugAssign, ast.AnnAssign)):
-                    tg = n.targets if isinstance(n, ast.Assign) else [n.target]
-                    if any(isinstance(t, ast.Attribute) for t in tg) and n.value is not None:
-                        for m in ast.walk(n.value):
-                            if isinstance(m, ast.Lambda):
-                                escaping.add(id(m))
-                            if isinstance(m, ast.Name):
-                                escaping.add(m.id)
-            self._callshape = (maxpos, kws, star, escaping)
-        maxpos, kws, star, escaping = self._callshape
-        if star or id(fn) in escaping or getattr(fn, "name", None) in escaping:
-            return {}
-        # a lambda / def held in a local name or container that is itself returned escapes too
-        holders = set()
-        for n in ast.walk(top):
-            if isinstance(n, ast.Assign) and any(m is fn for m in ast.walk(n.value)):
-                holders |= {t.id for t in n.targets if isinstance(t, ast.Name)}
-            if isinstance(n, ast.Call) and isinstance(n.func, ast.Attribute) and isinstance(n.func.value, ast.Name) \
-                    and any(m is fn for a_ in n.args for m in ast.walk(a_)):
-                holders.add(n.func.value.id)
-        if holders & escaping:
-            return {}
+                    star = any(isinstance(x, ast.Starred) for x in n.args) or any(k.arg is None for k in n.keywords)
+                    shapes.append((len(n.args), sorted({k.arg for k in n.keywords if k.arg}), bool(star)))
+            uniq = []
+            for sh in shapes:
+                if sh not in uniq:
+                    uniq.append(sh)
+            self._shape_cache[id(top)] = sorted(uniq)
+        sites = self._shape_cache[id(top)]
+        if self._escapes(top, fn):
+            return {}, cand, sites
         out = {}
         for name, (idx, d) in cand.items():
-            if name in kws:
-                continue
-            if idx is not None and maxpos > idx:
+            if any(star or name in kws or (idx is not None and npos > idx) for npos, kws, star in sites):
                 continue
             out[name] = d
-        return out
+        return out, cand, sites
+
+    def _escapes(self, top, fn) -> bool:
+        """Negation of condition (E) of `pinned_defaults` (conservative: name based, scopes ignored)."""
+        if getattr(fn, "decorator_list", None):
+            return True
+        params = set(self.all_args(top.args))
+        local = self.assigned_names(top) - params
+        holders = {fn.name} if hasattr(fn, "name") else set()
+        read_methods = {"get", "pop", "copy", "items", "values", "keys", "index", "count"}
+
+        def mentions(e) -> bool:
+            """`fn` or a holder occurs in e outside the callee position of a call."""
+            if e is None:
+                return False
+            if e is fn:
+                return True
+            if isinstance(e, ast.Name):
+                return e.id in holders
+            if isinstance(e, ast.Call):
+                f = e.func
+                if isinstance(f, ast.Attribute) and mentions(f.value):
+                    return True      # h.pop() / h.get(k) / h.copy(): the result may be fn
+                return any(mentions(x) for x in e.args) or any(mentions(k.value) for k in e.keywords)
+            if isinstance(e, (ast.FunctionDef, ast.AsyncFunctionDef, ast.Lambda)):
+                # another function object: its defaults hold what they mention (its body is looked at
+                # by the statement walk; a lambda body that hands `fn` out is an escape, see below)
+                return any(mentions(d) for d in list(e.args.defaults) + [d for d in e.args.kw_defaults if d is not None])
+            if isinstance(e, ast.keyword):
+                return mentions(e.value)
+            if isinstance(e, ast.comprehension):
+                return mentions(e.iter) or any(mentions(i) for i in e.ifs)
+            return any(mentions(c) for c in ast.iter_child_nodes(e)
+                       if isinstance(c, (ast.expr, ast.keyword, ast.comprehension)))
+
+        def names_of(t, out):
+            if isinstance(t, ast.Name):
+                out.add(t.id)
+            elif isinstance(t, (ast.Tuple, ast.List)):
+                for x in t.elts:
+                    names_of(x, out)
+            elif isinstance(t, ast.Starred):
+                names_of(t.value, out)
+
+        # holders: least fixed point
+        changed = True
+        while changed:
+            changed = False
+            before = len(holders)
+            for n in ast.walk(top):
+                tg, val = [], None
+                if isinstance(n, ast.Assign):
+                    tg, val = n.targets, n.value
+                elif isinstance(n, (ast.AugAssign, ast.AnnAssign)):
+                    tg, val = [n.target], n.value
+                elif isinstance(n, ast.NamedExpr):
+                    tg, val = [n.target], n.value
+                elif isinstance(n, (ast.For, ast.AsyncFor)):
+                    tg, val = [n.target], n.iter
+                elif isinstance(n, ast.comprehension):
+                    tg, val = [n.target], n.iter
+                elif isinstance(n, ast.withitem) and n.optional_vars is not None:
+                    tg, val = [n.optional_vars], n.context_expr
+                if val is not None and mentions(val):
+                    for t in tg:
+                        names_of(t, holders)
+                        if isinstance(t, ast.Subscript) and isinstance(t.value, ast.Name):
+                            holders.add(t.value.id)
+                if isinstance(n, (ast.FunctionDef, ast.AsyncFunctionDef, ast.Lambda)) and n is not top:
+                    aa = n.args
+                    ps = aa.posonlyargs + aa.args
+                    for k, d in enumerate(aa.defaults):
+                        if mentions(d):
+                            holders.add(ps[len(ps) - len(aa.defaults) + k].arg)
+                    for x, d in zip(aa.kwonlyargs, aa.kw_defaults):
+                        if d is not None and mentions(d):
+                            holders.add(x.arg)
+                if isinstance(n, ast.Call) and isinstance(n.func, ast.Attribute) and isinstance(n.func.value, ast.Name) \
+                        and n.func.attr in self.HOLDER_METHODS \
+                        and (any(mentions(x) for x in n.args) or any(mentions(k.value) for k in n.keywords)):
+                    holders.add(n.func.value.id)
+            changed = len(holders) != before
+        # the escape conditions
+        for n in ast.walk(top):
+            if isinstance(n, (ast.Return, ast.Yield, ast.YieldFrom)) and mentions(n.value):
+                return True
+            if isinstance(n, (ast.Global, ast.Nonlocal)) and set(n.names) & holders:
+                return True
+            if isinstance(n, ast.Lambda) and n is not fn and mentions(n.body):
+                return True      # a lambda whose value is (or contains) fn
+            if isinstance(n, (ast.Assign, ast.AugAssign, ast.AnnAssign)) and n.value is not None and mentions(n.value):
+                for t in (n.targets if isinstance(n, ast.Assign) else [n.target]):
+                    for m in ast.walk(t):
+                        if isinstance(m, ast.Attribute):
+                            return True
+                        if isinstance(m, ast.Subscript):
+                            b = m.value
+                            if not (isinstance(b, ast.Name) and b.id in local):
+                                return True
+            if isinstance(n, ast.Call):
+                f = n.func
+                passes = any(mentions(x) for x in n.args) or any(mentions(k.value) for k in n.keywords)
+                if isinstance(f, ast.Attribute) and mentions(f.value):
+                    if f.attr not in self.HOLDER_METHODS | read_methods:
+                        return True      # fn.__call__(…), holder.sort(key=…) …
+                if passes:
+                    if isinstance(f, ast.Attribute) and isinstance(f.value, ast.Name) and f.attr in self.HOLDER_METHODS \
+                            and f.value.id in local:
+                        continue
+                    if isinstance(f, ast.Name) and f.id in self.PASS_THROUGH and f.id not in local | params:
+                        continue
+                    return True
+        if holders & params:
+            return True      # a holder that is also a parameter of T: the caller can reach it
+        return False
 
     def inline_call(self, fn: ast.FunctionDef, call: ast.Call):
         """Inline a call of a private module-level function: its parameters are bound to what the
@@ -571,12 +707,14 @@ class FuncTranslator:
         ret = self.var(f"{tag}:ret")
         self.retstack.append(ret)
         self.inline_stack.append(fn.name)
+        self.encl.append(fn)
         saved_captured, saved_versions = self.captured, self.versions
         self.captured, self.versions = self.captured_names(fn), {}
         # each execution of the callee runs its body once from the top with freshly bound
         # parameters and locals, so the body is a `block` (flow-sensitive) of its own
         self.block(fn.body)
         self.captured, self.versions = saved_captured, saved_versions
+        self.encl.pop()
         self.inline_stack.pop()
         self.retstack.pop()
         self.inlining -= 1
@@ -1038,6 +1176,7 @@ def translate_all():
         out.append(dict(
             name=f"{p.module}.{p.qualname}", nparams=p.nparams, owned0=sorted(p.owned0),
             stmts=p.stmts, vars={i: k for k, i in p.vars.items()}, taint=sorted(_taint(p)),
+            pins=[r for r in p.pins if r["params"]],
         ))
     translate_all.summaries = (sorted(fresh_funcs), sorted(fresh_methods))
     return out
@@ -1063,7 +1202,7 @@ def offenders(p):
 
 def lean_text(progs) -> str:
     parts = [HEADER.format(name="effects", source="src/grid/{" + ",".join(MODULES) + "}.py")]
-    parts.append("import GridVerif.Model.Effects\n\nnamespace GridVerif.Gen.Effects\nopen GridVerif.Effects\n")
+    parts.append("import GridVerif.Model.Effects\nimport GridVerif.Model.EffectsCalls\n\nnamespace GridVerif.Gen.Effects\nopen GridVerif.Effects\n")
     names = []
     for i, p in enumerate(progs):
         ident = f"p{i}"
@@ -1084,8 +1223,75 @@ def lean_text(progs) -> str:
     parts.append("/-- Every function and method of the library (nested functions inlined). -/")
     parts.append("def progs : List Prog := [\n  " + ",\n  ".join(
         ", ".join(names[i:i + 12]) for i in range(0, len(names), 12)) + "]\n")
+    # certificates for the parameters of nested functions that have a default value
+    kwnames = sorted({q["name"] for p in progs for r in p["pins"] for q in r["params"]}
+                     | {k for p in progs for r in p["pins"] for _, kws, _ in r["sites"] for k in kws})
+    kwid = {k: i for i, k in enumerate(kwnames)}
+    rows = []
+    for i, p in enumerate(progs):
+        for r in p["pins"]:
+            sites = ", ".join(
+                f"⟨{npos}, [{', '.join(str(kwid[k]) for k in kws)}], {'true' if star else 'false'}⟩"
+                for npos, kws, star in r["sites"])
+            params = ", ".join(
+                f"⟨{q['var']}, {'some ' + str(q['pos']) if q['pos'] is not None else 'none'}, {kwid[q['name']]}, "
+                f"[{', '.join(map(str, q['ys']))}], {'true' if q['cb'] else 'false'}⟩" for q in r["params"])
+            what = "; ".join(f"{q['name']}: {'pinned to its default' if q['pinned'] else 'anything'}" for q in r["params"])
+            rows.append(f"  -- {p['name']}: nested `{r['fn']}` (line {r['line']}) written in `{r['encl']}`: {what}\n"
+                        f"  ⟨p{i}, [{sites}], [{params}]⟩")
+    parts.append("/-- Keyword / parameter names are numbered: " + ", ".join(f"{i}={k}" for k, i in kwid.items()) + " -/")
+    parts.append("def kwNames : List String := [" + ", ".join(f'"{k}"' for k in kwnames) + "]\n")
+    parts.append("/-- Per nested function with default-valued parameters: the program it is inlined into, the\n"
+                 "shapes of the call expressions in the text of the function it is written in, and its\n"
+                 "default-valued parameters (IR variable, positional index, name, what the statement emitted\n"
+                 "for it may alias).  `pinRowOk` decides for each parameter whether it is pinned under these\n"
+                 "shapes and checks that the matching statement is in the program. -/")
+    parts.append("def pins : List PinRow := [\n" + ",\n".join(rows) + "]\n")
     parts.append("end GridVerif.Gen.Effects\n")
     return "\n".join(parts)
+
+
+PINNED_SELFTEST = [
+    # (source of a top-level function, {parameter of the nested function: expected to be pinned?})
+    ("def t(a):\n    fs = []\n    g = a.copy()\n    fs.append(lambda x, func=g: func(x))\n    return fs[0](a)\n", {"func": True}),
+    # a call in the text with two positional arguments reaches index 1
+    ("def t(a):\n    f = lambda x, func=a: func\n    return f(a, a)\n", {"func": False}),
+    # keyword of that name / star arguments
+    ("def t(a):\n    def f(x, func=a):\n        return x\n    return f(a) + f(x=a, func=a)\n", {"func": False}),
+    ("def t(a, *r):\n    def f(x, func=a):\n        return x\n    return f(*r)\n", {"func": False}),
+    # the function object leaves: returned, stored on self / in a caller's dict, passed to another call
+    ("def t(a):\n    def f(x, func=a):\n        return x\n    return f\n", {"func": False}),
+    ("def t(a):\n    fs = [lambda x, func=a: x]\n    return fs\n", {"func": False}),
+    ("def t(self, a):\n    self.f = lambda x, func=a: x\n", {"func": False}),
+    ("def t(a, opts):\n    opts['f'] = lambda x, func=a: x\n", {"func": False}),
+    ("def t(a):\n    def f(x, func=a):\n        return x\n    return solve(f, a)\n", {"func": False}),
+    ("def t(a):\n    def f(x, func=a):\n        return x\n    return scipy.integrate.quad(f, 0, 1, args=(a,))\n", {"func": False}),
+    ("def t(a):\n    def f(x, func=a):\n        return x\n    return sorted(a, key=f)\n", {"func": False}),
+    ("def t(a):\n    def f(x, func=a):\n        return x\n    g = f\n    h = [g]\n    return h.pop()\n", {"func": False}),
+    ("def t(a):\n    @wraps(a)\n    def f(x, func=a):\n        return x\n    return f(a)\n", {"func": False}),
+    ("def t(a):\n    def f(x, func=a):\n        return x\n    return f.__call__(a, a)\n", {"func": False}),
+    ("def t(a):\n    def f(x, func=a):\n        return x\n    k = lambda: f\n    return k()(a, a)\n", {"func": False}),
+    # called through a local container and a loop variable only: pinned
+    ("def t(a):\n    fs = []\n    for i in range(3):\n        fs.append(lambda x, i=i: x + i)\n    out = fs[0](a)\n"
+     "    for f in fs[1:]:\n        out = out + f(a)\n    return out\n", {"i": True}),
+    # keyword-only default, no call names it
+    ("def t(a):\n    def f(x, *, w=a):\n        return x\n    return f(a) + f(a)\n", {"w": True}),
+]
+
+
+def pinned_selftest() -> list[str]:
+    """Decisions of `pinned_defaults` on small synthetic functions (one per clause of its
+    condition); -> list of disagreements with the expectation."""
+    bad = []
+    for src, expect in PINNED_SELFTEST:
+        fn = ast.parse(src).body[0]
+        tr = FuncTranslator("selftest", "t", fn, fn.args.args[:1] and fn.args.args[0].arg == "self", {"solve"})
+        tr.run()
+        got = {q["name"]: q["pinned"] for r in tr.pins for q in r["params"]}
+        for name, want in expect.items():
+            if got.get(name) is not want:
+                bad.append(f"{src.splitlines()[1:3]}: parameter {name}: pinned={got.get(name)} expected {want}")
+    return bad
 
 
 def generate():
